@@ -231,6 +231,11 @@ pub async fn run(dir: &str) {
                 std::fs::write(&path, &base).unwrap();
                 format!("ok {}", vs.join(","))
             }
+            "verdict" => format!("ok {}", verdict(&path, &orig).await),
+            "version" => format!(
+                "ok {}",
+                SemanticVersion::current().unwrap().get_numeric_version().unwrap()
+            ),
             "quit" => break,
             other => format!("err unknown-op-{other}"),
         };
